@@ -558,6 +558,21 @@ def check_case(case, props):
                 stats['rep_steps'] += 1
                 k = op['op'] + (':fault' if op.get('fault') else '')
                 stats['probes'][k] = stats['probes'].get(k, 0) + 1
+                if not rec['ok'] and not op.get('fault') and op['op'] in ('solve', 'soc_solve'):
+                    # arbiter (as in M-PEER): the engine, called directly on a snapshot of the compiled program through the
+                    # independent translation, raises as well -> the refusal is the engine's own (seen: ECOS cannot set up a
+                    # program that has a row without variables), nothing RSOME repeated differently
+                    try:
+                        from machines import peer
+                        from sim import direct
+                        direct.DIRECT[peer.ENGINE_OF[op['solver']]](peer.snapshot(m.do_math()))
+                        engine_raises = False
+                    except Exception:
+                        engine_raises = True
+                    if engine_raises:
+                        stats['inconclusive']['engine_itself_raises:' + op['solver']] = \
+                            stats['inconclusive'].get('engine_itself_raises:' + op['solver'], 0) + 1
+                        break
                 if not rec['ok'] and not op.get('fault'):
                     viol('repeat-raises', 'repetition step %d (%s%s) raised %s after %s: %s'
                          % (i, op['op'], ' ' + op.get('solver', '') if 'solver' in op else '', rec['exc'],
